@@ -150,6 +150,8 @@ def check(ctx):
             m2["c%d" % i] = gen_pkg(rnd, "c%d" % i, 100 + i, True)
         # error messages that print a type, a key or an expression of the source must print the SOURCE (not an address or a position in
         # the file set, which change from run to run and with the set of co-translated packages)
+        # … and a declaration on which the translator fails internally (recovered panic): its report must not contain a stack dump
+        m2["k1"] = {"p.go": "package k1\n\ntype Buf []byte\n\nfunc Fill(b Buf, x []byte) uint64 {\n\treturn uint64(copy(b, x))\n}\n\nfunc Other() uint64 {\n\treturn 3\n}\n"}
         m2["k0"] = {"p.go": "package k0\n\nfunc KeyArray() map[[2]byte]uint64 {\n\treturn nil\n}\n\nfunc KeyPtr() map[*uint64]uint64 {\n\treturn nil\n}\n\n"
                             "type R struct {\n\tf map[[3]uint64]bool\n}\n\nfunc Chan(c chan uint64) {\n\tc <- 1\n}\n\nfunc Sel(a [4]uint64) uint64 {\n\treturn a[1]\n}\n"}
         root2 = os.path.join(scratch, "m2")
@@ -169,6 +171,10 @@ def check(ctx):
                       "sources": {d: {f: t[:400] for f, t in fs.items()} for d, fs in m2.items()}, "patterns": ["./..."], "GOMAXPROCS": gmp, "flags": ["-ignore-errors"]},
                      "identical error output in every run", {"first_difference_at_line": k, "run_1": a[k:k + 4], "run_%d" % (r + 1): b[k:k + 4]})
                 break
+        # what an earlier run left in the output directory must not matter (also for a package with an FFI prelude, whose file has no footer)
+        rt_pkgs = dict(gomod.RT_PACKAGE)
+        rt_pkgs["dk"] = {"d.go": "package dk\n\nimport \"github.com/goose-lang/goose/machine/disk\"\n\nfunc Blocks() uint64 {\n\treturn disk.Size()\n}\n\nfunc Last() uint64 {\n\treturn disk.Size() - 1\n}\n"}
+        found = gomod.retranslate_stream(ctx, scratch, "goose output depends on what an earlier run left in the output directory", found, pkgs=rt_pkgs)
         # race detector
         nrace = 6 if ctx.tier == "quick" else 40
         for r in range(nrace):
